@@ -258,3 +258,40 @@ func init() {
 		return c.Emit("Spao.lean", sb.String())
 	})
 }
+
+// group "disp": SCMP informational type numbers and the syntactic fact that processMsgNextHop
+// assigns `prevHop` as destination exactly once (the echo/traceroute request branch).
+func init() {
+	register("disp", func(c *Ctx) error {
+		var sb strings.Builder
+		sb.WriteString("namespace Scion.Gen.Disp\n")
+		for _, n := range []string{"SCMPTypeEchoRequest", "SCMPTypeEchoReply", "SCMPTypeTracerouteRequest",
+			"SCMPTypeTracerouteReply"} {
+			v, err := wireConst(c, "pkg/slayers", n, 0)
+			if err != nil {
+				return err
+			}
+			fmt.Fprintf(&sb, "/-- `pkg/slayers.%s` -/\ndef %s : Nat := %s\n", n, n, v.String())
+		}
+		fd, err := c.Func("dispatcher", "Server", "processMsgNextHop")
+		if err != nil {
+			return err
+		}
+		n := 0
+		ast.Inspect(fd, func(x ast.Node) bool {
+			as, ok := x.(*ast.AssignStmt)
+			if !ok {
+				return true
+			}
+			for _, r := range as.Rhs {
+				if id, ok := r.(*ast.Ident); ok && id.Name == "prevHop" {
+					n++
+				}
+			}
+			return true
+		})
+		fmt.Fprintf(&sb, "/-- number of assignments `… = prevHop` in `Server.processMsgNextHop` -/\ndef prevHopAssignments : Nat := %d\n", n)
+		sb.WriteString("end Scion.Gen.Disp\n")
+		return c.Emit("Disp.lean", sb.String())
+	})
+}
